@@ -29,9 +29,24 @@ package client
 //@ func (*Client).Query
 //@   partial
 //@   ensures[C15] old(fd.forceFailureErr) != nil && sdkValidate(input) == nil ==> result1 == old(fd.forceFailureErr) && unchangedAll()
+// C02/C04/C17: the search the client performs is the one the request describes (same clauses as on the SDK v2 client)
+//@   opaque (*Table).SearchData
+//@   callsite[C02,C04,C17] (*Client).getTable: arg.tableName == old(input.TableName == nil ? "" : *input.TableName)
+//@   callsite[C02,C04,C17] (*Table).SearchData: arg.t == table && !arg.input.Scan && !arg.input.started && arg.input.ConditionExpression == nil &&
+//@                arg.input.Index == old(input.IndexName == nil ? "" : *input.IndexName) &&
+//@                arg.input.ScanIndexForward == (old(input.ScanIndexForward) == nil || old(*input.ScanIndexForward)) &&
+//@                arg.input.KeyConditionExpression == old(*input.KeyConditionExpression) &&
+//@                arg.input.FilterExpression == old(input.FilterExpression == nil ? "" : *input.FilterExpression) &&
+//@                arg.input.Limit == old(input.Limit == nil ? 0 : *input.Limit)
 //@ func (*Client).Scan
 //@   partial
 //@   ensures[C15] old(fd.forceFailureErr) != nil && sdkValidate(input) == nil ==> result1 == old(fd.forceFailureErr) && unchangedAll()
+//@   opaque (*Table).SearchData
+//@   callsite[C02,C04,C17] (*Client).getTable: arg.tableName == old(input.TableName == nil ? "" : *input.TableName)
+//@   callsite[C02,C04,C17] (*Table).SearchData: arg.t == table && arg.input.Scan && arg.input.ScanIndexForward && !arg.input.started && arg.input.ConditionExpression == nil &&
+//@                arg.input.KeyConditionExpression == "" && arg.input.Index == old(input.IndexName == nil ? "" : *input.IndexName) &&
+//@                arg.input.FilterExpression == old(input.FilterExpression == nil ? "" : *input.FilterExpression) &&
+//@                arg.input.Limit == old(input.Limit == nil ? 0 : *input.Limit)
 //@ func (*Client).TransactWriteItems
 //@   partial
 //@   ensures[C15] old(fd.forceFailureErr) != nil ==> result1 == old(fd.forceFailureErr) && unchangedAll()
